@@ -5,6 +5,7 @@
   non-vacuity examples for the `_partial` theorems.
 -/
 import VrlProofs.Props.C03Err
+import VrlProofs.Props.C03Union
 
 namespace C03.W
 open C03 Spec
@@ -170,6 +171,20 @@ example (E : Env) : Covered E .compact [some (.lit (arrOf [.null, i 1])), none, 
   ⟨_, _, ⟨rfl, rfl, by decide⟩, by decide, rfl⟩
 example (E : Env) : Covered E .flatten [some (.lit (objA (.obj (.cons kX (i 1) .nil)))), none, none]
     [some (objA (.obj (.cons kX (i 1) .nil))), none, none] :=
+  ⟨_, _, ⟨rfl, rfl, by decide⟩, by decide, rfl⟩
+
+/-- `values({"a": 1, "b": "x"})`, `values(.p)`, `push([1], "a")`, `push(.p, .q)` -/
+example (E : Env) : Covered E .values
+    [some (.lit (.obj (.cons kA (i 1) (.cons [98] (.bytes [120]) .nil))))]
+    [some (.obj (.cons kA (i 1) (.cons [98] (.bytes [120]) .nil)))] :=
+  ⟨_, _, ⟨rfl, rfl, by decide⟩, by decide, rfl⟩
+example (E : Env) : Covered E .values [some (.dyn Kind.any)] [some (objA (i 1))] :=
+  ⟨_, _, ⟨rfl, rfl, by decide⟩, by decide, rfl⟩
+example (E : Env) : Covered E .push [some (.lit (arrOf [i 1])), some (.lit (.bytes [97]))]
+    [some (arrOf [i 1]), some (.bytes [97])] :=
+  ⟨_, _, ⟨rfl, rfl, by decide⟩, by decide, rfl⟩
+example (E : Env) : Covered E .push [some (.dyn Kind.any), some (.dyn Kind.any)]
+    [some (arrOf [i 1]), some .null] :=
   ⟨_, _, ⟨rfl, rfl, by decide⟩, by decide, rfl⟩
 
 /-- a function outside every class: `array([1, "a"])`, `keys({"a": 1})`, `split("a,b", ",")` -/
